@@ -8,6 +8,7 @@ mod c10;
 mod c11;
 mod c12;
 mod c13;
+mod c14;
 mod ext;
 mod c20;
 mod ev;
@@ -39,6 +40,7 @@ fn main() {
         "c11" => c11::main(tier),
         "c12" => c12::main(tier),
         "c13" => c13::main(tier),
+        "c14" => c14::main(tier),
         "c20" => c20::main(tier),
         "eval" => {
             // vmc eval '<program>' '<input as jq program>' [inputs as jq programs...]
